@@ -187,6 +187,56 @@ theorem write_then_read {ft : FloatText} (L : FloatLaws ft) (h : Header) (hh : H
     obtain ⟨q, hq, rfl⟩ := hmem
     exact (hline q hq).2
 
+/-- with header lines in front: NewReader hands exactly the header lines (each starting with `@` and
+newline-terminated) to the header parser and the reader then returns the lines after them -/
+theorem reader_header_then_lines (ft : FloatText) (h : Header) (hls : List Bytes) (ls : List (Bytes × Bool))
+    (final : Bool) (hne : hls ≠ [])
+    (hh : ∀ l ∈ hls, (∃ rest, l = 64 :: rest) ∧ ∀ c ∈ l, c ≠ 10)
+    (hl : ∀ p ∈ ls, (∀ c ∈ p.1, c ≠ 10) ∧ p.1.getLast? ≠ some 13 ∧ ∀ c rest, p.1 = c :: rest → c ≠ 64)
+    (hlast : final = false → ∀ p, ls.getLast? = some p → p.1 ≠ []) :
+    ∃ body, splitHeader ((headerText hls ++ joinLines ls final).length + 1) [] (headerText hls ++ joinLines ls final) =
+        some (headerText hls, body) ∧
+      readAll ft h body = ls.map fun p => parseRecord ft (some h) p.1 := by
+  refine ⟨joinLines ls final, ?_, reader_lines ft h ls final (fun p hp => ⟨(hl p hp).1, (hl p hp).2.1⟩) hlast⟩
+  have hb : ∀ c rest, joinLines ls final = c :: rest → c ≠ 64 := by
+    intro c rest hj
+    cases ls with
+    | nil => simp [joinLines] at hj
+    | cons p ps =>
+      have hp := (hl p List.mem_cons_self).2.2
+      cases hp1 : p.1 with
+      | nil =>
+        -- an empty first line: the input continues with its line end or is empty
+        cases ps with
+        | nil =>
+          simp only [joinLines, hp1] at hj
+          split at hj
+          · cases hb2 : p.2 <;> simp [eol, hb2] at hj <;> (rw [← hj.1]; decide)
+          · simp at hj
+        | cons q qs =>
+          simp only [joinLines, hp1] at hj
+          cases hb2 : p.2 <;> simp [eol, hb2] at hj <;> (rw [← hj.1]; decide)
+      | cons d ds =>
+        have hd := hp d ds hp1
+        cases ps with
+        | nil =>
+          simp only [joinLines, hp1] at hj
+          split at hj <;> (simp at hj; rw [← hj.1]; exact hd)
+        | cons q qs =>
+          simp only [joinLines, hp1] at hj
+          simp at hj; rw [← hj.1]; exact hd
+  have := splitHeader_spec hls (joinLines ls final) hh hb
+    ((headerText hls ++ joinLines ls final).length + 1) []
+    (by
+      have : hls.length ≤ (headerText hls).length := by
+        clear hh hne
+        induction hls with
+        | nil => simp
+        | cons x xs ih => simp [headerText] at ih ⊢; omega
+      simp; omega)
+    (fun e _ => absurd e hne)
+  simpa using this
+
 /-! ### non-vacuity -/
 
 /-- a header and a record with every kind of field: a placed, paired read with CIGAR, qualities and aux
